@@ -21,8 +21,10 @@ import (
 	"github.com/google/osv-scalibr/extractor/filesystem/language/python/pdmlock"
 	"github.com/google/osv-scalibr/extractor/filesystem/language/python/pipfilelock"
 	"github.com/google/osv-scalibr/extractor/filesystem/language/python/poetrylock"
+	"github.com/google/osv-scalibr/extractor/filesystem/language/python/uvlock"
 	"github.com/google/osv-scalibr/extractor/filesystem/language/r/renvlock"
 	"github.com/google/osv-scalibr/extractor/filesystem/language/rust/cargolock"
+	"github.com/google/osv-scalibr/extractor/filesystem/language/swift/packageresolved"
 	"github.com/google/osv-scalibr/internal/verifrt"
 	"github.com/google/osv-scalibr/internal/verifrt/symfs"
 )
@@ -138,6 +140,23 @@ var lockFormats = map[string]lockFormat{
 				}
 			}
 			return extra(map[string]any{"version": "0.5", "requires": req, "build_requires": build}, l)
+		}},
+	"uvlock": {mk: uvlock.New, path: "uv.lock", codec: "toml",
+		name: func(b byte) string { return "py" + string([]byte{b}) }, version: func(b byte) string { return "1." + string([]byte{b}) },
+		tree: func(rs []record, l lockLayout) map[string]any {
+			// the project itself is listed as a virtual package, which the format marks as not a dependency
+			pk := []any{map[string]any{"name": "root", "version": "0.1.0", "source": map[string]any{"virtual": "."}}}
+			pk = append(pk, pkgList(rs, l, func(r record) map[string]any {
+				return map[string]any{"name": r.name, "version": r.version, "source": map[string]any{"registry": "https://pypi.org/simple"}}
+			})...)
+			return extra(map[string]any{"version": 1, "package": pk}, l)
+		}},
+	"packageresolved": {mk: packageresolved.NewDefault, path: "Package.resolved", codec: "json",
+		name: func(b byte) string { return "sw" + string([]byte{b}) }, version: func(b byte) string { return "1.0." + string([]byte{b}) },
+		tree: func(rs []record, l lockLayout) map[string]any {
+			return extra(map[string]any{"version": 2, "pins": pkgList(rs, l, func(r record) map[string]any {
+				return map[string]any{"identity": r.name, "kind": "remoteSourceControl", "state": map[string]any{"revision": "abc", "version": r.version}}
+			})}, l)
 		}},
 	// package-lock.json v1: nested dependencies (the second section is nested under the first record,
 	// which is a local file: dependency when the layout asks for extra keys)
